@@ -227,7 +227,7 @@ def reason_fits(ip, reason):
     return sval.utf8_len(reason.t) <= 123
 
 
-@contract('lomond.websocket.WebSocket._on_close', serves=['C08', 'C04', 'C12'])
+@contract('lomond.websocket.WebSocket._on_close', serves=['C08', 'C04', 'C12', 'C14'])
 class OnClose(ProducerContract):
     """server Close received.  Reserved code -> ProtocolError before anything is yielded.  Already
     closed -> nothing.  We were closing -> Closed(code, reason), then closed and not closing.
